@@ -67,13 +67,15 @@ func init() {
 		Gen:  genCases,
 		Run:  run,
 		Post: post,
+		// generous: the watchdog only guards against hangs (a case needs a few CPU-seconds)
+		CaseTimeoutSec: 900,
 	})
 }
 
 func genCases(seed int64, tier string) []core.Case {
 	pairs, per := 2000, 25
 	if tier == "thorough" {
-		pairs, per = 40000, 100
+		pairs, per = 40000, 50
 	}
 	rng := rand.New(rand.NewSource(seed*15485863 + 14))
 	var out []core.Case
